@@ -80,7 +80,7 @@ def prop(pid, explanation, decided, not_decided, rules, assumptions=None):
                            'waiters notified, dead threads reaped, lock discipline, reviewed transition relation and effect order; every protocol action happens on every path that owes it '
                            '(MUST: must-pass-through obligations, e.g. a waker cannot return before looking at the state, a taken waker is woken, a created thread is registered); every waker that is '
                            'polled with or left in a slot comes from the caller or is one of the crate\'s own, built for the queue it runs and the thread that parks (WP); every object the rules reason about per owner (a queue per Desync, a result slot per future, a buffer per pipe, a schedule and thread table '
-                           'per scheduler, a busy flag per thread, the id a queue is parked under) is made for that owner by its constructor, starts in the protocol\'s initial state and keeps its identity, and the two ends of every hand-shake are one object (ID-fixed, ID-fresh, ID-same): group CORE in dsa/props.py)')
+                           'per scheduler, a busy flag per thread, the id a queue is parked under) is made for that owner by its constructor, starts in the protocol\'s initial state and keeps its identity, the types of the protocol have the reviewed destructors (DROP-base), and the two ends of every hand-shake are one object (ID-fixed, ID-fresh, ID-same): group CORE in dsa/props.py)')
         if getattr(entry[0], '__name__', '') == 'tr_base':
             decided.append('the transition relation extracted from %s is the reviewed one: no transition added, none removed (TR-base; regression rule against dsa/tr_baseline.json)'
                            % (', '.join(entry[2]) if len(entry) > 2 and entry[2] else 'every function that writes the queue state'))
@@ -105,7 +105,7 @@ G_POOL = [(RO.c03_dormant, None), (RO.c10_fetch, None), (RO.c10_thread, None), (
 G_CORE = [(RP.tok_exec, None), (RP.tok_leak, None), (RP.tok_resched, None), (RP.tok_pending, None), (RP.tok_requeue, None), (RP.pa_rules, None),
           (RP.park_wake, None), (RP.tr_dead, None), (RP.tr_roles, None), (RP.tr_immediate, None), (RP.tr_sibling, None), (RP.tr_defer, None), (RP.tr_base, None),
           (RQ.qd_queue, None), (RQ.qd_single_store, None), (RQ.qd_job_lifetime, None), (RQ.qd_schedule, None), (RQ.qd_wake_blocked, None), (RQ.qd_run, None), (RQ.qd_once, None),
-          (RG.tok_guard, None), (RG.aq_drop, None), (RG.c15_reap, None), (RG.c15_refuse, None),
+          (RG.tok_guard, None), (RG.aq_drop, None), (RG.c15_reap, None), (RG.c15_refuse, None), (RG.drop_base, None),
           (RL.try_rule, None), (RL.lo, None), (RL.bl, None),
           (RO.c03_dormant, None), (RO.c10_fetch, None), (RO.c10_thread, None), (RO.c10_spawn, None), (RO.c02_append, None), (RO.c06_drain, None),
           (RO.c07_own, None), (RO.c07_signal, None), (RO.c08, None, ['result-after-scheduler', 'polls-with-callers-context', 'drop-order', 'unwind-keeps-the-slot']),
